@@ -111,6 +111,19 @@ def hx(s):
     return s.encode().hex()
 
 
+def flat_of(dump):
+    rows = []
+
+    def walk(prefix, d):
+        for k, v in d.items():
+            if isinstance(v, dict):
+                walk(prefix + [str(k)], v)
+            else:
+                rows.append((".".join(prefix + [str(k)]), canon_value(v)))
+    walk([], dump)
+    return rows
+
+
 def run(ctx):
     warnings.filterwarnings("ignore")
     rng = random.Random(ctx["seed"] * 67867967 + 14)
@@ -218,6 +231,36 @@ def run(ctx):
             res["oracle_failures"].append(dict(clause="lock", api="DailyModel(settings={'cvrmse_threshold': 0.5})", verdict="accept"))
         except Exception:  # noqa
             pass
+
+    # ---- settings OBJECTS handed to the model constructors (any profile's class, default or with a free field changed): the model
+    # must refuse them, or be in developer mode, or carry exactly the approved constants of ITS OWN profile
+    fam_of = {"DailyModel()": "daily", "DailyModel(legacy)": "legacy", "BillingModel()": "billing"}
+    ctors = {"DailyModel()": lambda s: DailyModel(settings=s), "DailyModel(legacy)": lambda s: DailyModel(model="legacy", settings=s),
+             "BillingModel()": lambda s: BillingModel(settings=s)}
+    approved_by_fam = {fam: {k: v for k, v in rows} for fam, rows in approved.items()}
+    for cname, ctor in ctors.items():
+        for sname, scls in fams.items():
+            for extra in ({}, {"uncertainty_alpha": 0.25}):
+                res["evaluations"] += 1
+                try:
+                    obj = scls(**extra)
+                except Exception:  # noqa
+                    continue
+                try:
+                    m = ctor(obj)
+                except Exception:  # noqa
+                    sigs.add(("settings_object", cname, sname, "refused"))
+                    continue
+                dump = m.settings.model_dump()
+                sigs.add(("settings_object", cname, sname, "accepted"))
+                if dump.get("developer_mode"):
+                    continue
+                want = approved_by_fam.get(fam_of[cname], {})
+                got_flat = {k: v for k, v in flat_of(dump)}
+                diff = {k: (want[k], got_flat.get(k)) for k in want if k not in ("uncertainty_alpha",) and got_flat.get(k) != want[k]}
+                if diff:
+                    res["oracle_failures"].append(dict(clause="lock", api=f"{cname} given a {scls.__name__} object {extra}", verdict="accept",
+                                                       developer_mode=False, constants_differing_from_approved=dict(list(diff.items())[:6])))
 
     if ctx.get("model_ok", True):
         outs = core.run_driver(lines)
